@@ -272,6 +272,48 @@ func checkC16(c *Ctx) {
 		}
 	}
 
+	// R6
+	r6 := c.R.Rule("C16-R6", "the credential file reader accepts records of differing length (csv.Reader.FieldsPerRecord is set negative before ReadAll) when the loader distinguishes several record lengths", "E11 constant store dominating the read", 1)
+	if fh != nil {
+		lens := map[int64]bool{}
+		for _, b := range fh.Blocks {
+			if iff, ok := b.Instrs[len(b.Instrs)-1].(*ssa.If); ok {
+				if bo, ok := iff.Cond.(*ssa.BinOp); ok && bo.Op == token.EQL {
+					if cl, ok := bo.X.(*ssa.Call); ok && core.CallOf(cl).Builtin() == "len" {
+						if k, ok := constInt(bo.Y); ok {
+							lens[k] = true
+						}
+					}
+				}
+			}
+		}
+		var readAll *core.Call
+		for _, cl := range core.CallsIn(fh) {
+			if cl.Obj != nil && cl.Obj.Name() == "ReadAll" && cl.Obj.Pkg() != nil && cl.Obj.Pkg().Path() == "encoding/csv" {
+				readAll = cl
+			}
+		}
+		if r6.Anchor(readAll != nil, "csv.Reader.ReadAll in auth.FileHandler") {
+			if len(lens) < 2 {
+				r6.OK("record lengths accepted by auth.FileHandler", c.where(fh, fh), "a single record length is handled; the default field-count check is consistent with it")
+			} else {
+				ok := false
+				for _, b := range fh.Blocks {
+					for _, in := range b.Instrs {
+						if st, isSt := in.(*ssa.Store); isSt {
+							if fa, isFA := st.Addr.(*ssa.FieldAddr); isFA && fieldNameOf(fa.X.Type(), fa.Field) == "FieldsPerRecord" && core.Dominates(st, readAll.Instr) {
+								if k, isK := constInt(st.Val); isK && k < 0 {
+									ok = true
+								}
+							}
+						}
+					}
+				}
+				r6.Check(ok, "record lengths accepted by auth.FileHandler", c.whereI(readAll.Instr), fmt.Sprintf("FieldsPerRecord < 0 while %d record lengths are handled", len(lens)), fmt.Sprintf("the loader handles %d different record lengths but the csv reader enforces the field count of the first record: a file mixing them is rejected as a whole and nobody can log in", len(lens)))
+			}
+		}
+	}
+
 	// R1: setup gating
 	c.checkSetupGating()
 }
@@ -388,12 +430,18 @@ func (c *Ctx) checkAuthHandlers(authPkg string) {
 				if !eqHeld {
 					continue
 				}
+				if mix := c.mixesRawCredentials(a.lhs, f) + c.mixesRawCredentials(a.rhs, f); mix != "" {
+					bad = "username and password are joined into one value before being fingerprinted and compared (" + mix + "): the join is ambiguous at the boundary, so a different (username, password) pair can be accepted"
+				}
 				if c.mentionsAppField(a.lhs, f, "Username") || c.mentionsAppField(a.rhs, f, "Username") {
 					userOK = true
 				}
 				if c.mentionsAppField(a.lhs, f, "Password") || c.mentionsAppField(a.rhs, f, "Password") {
 					passOK = true
 				}
+			}
+			if bad != "" {
+				break
 			}
 			if !userOK || !passOK {
 				bad = fmt.Sprintf("success return reachable without a successful comparison of the %s: %s", map[bool]string{true: "password", false: "username"}[userOK], fmtPath(p, c.P))
@@ -550,4 +598,154 @@ func (c *Ctx) sameRecordAsCompared(p *core.Path, mp ssa.Value) bool {
 		}
 	}
 	return n >= 2
+}
+
+// mixesRawCredentials: v depends on a string/byte concatenation whose operands reach, without passing through any call, both the presented username and the presented password.
+func (c *Ctx) mixesRawCredentials(v ssa.Value, f *ssa.Function) string {
+	found := ""
+	isField := func(name string) func(ssa.Value) bool {
+		return func(x ssa.Value) bool {
+			switch y := x.(type) {
+			case *ssa.FieldAddr:
+				return fieldNameOf(y.X.Type(), y.Field) == name && isNamed(derefT(y.X.Type()), "wasp/auth", "ApplicationContext")
+			case *ssa.Field:
+				return fieldNameOf(y.X.Type(), y.Field) == name && isNamed(y.X.Type(), "wasp/auth", "ApplicationContext")
+			}
+			return false
+		}
+	}
+	reachesBoth := func(ops []ssa.Value) bool {
+		u, p := false, false
+		for _, o := range ops {
+			if containerReaches(o, isField("Username")) {
+				u = true
+			}
+			if containerReaches(o, isField("Password")) {
+				p = true
+			}
+		}
+		return u && p
+	}
+	seen := map[ssa.Value]bool{}
+	var walk func(v ssa.Value, fn *ssa.Function, d int)
+	walk = func(v ssa.Value, fn *ssa.Function, d int) {
+		if v == nil || seen[v] || d > 40 || found != "" {
+			return
+		}
+		seen[v] = true
+		switch x := v.(type) {
+		case *ssa.BinOp:
+			if x.Op == token.ADD && reachesBoth([]ssa.Value{x.X, x.Y}) {
+				found = "concatenation at " + c.P.Pos(x.Pos())
+				return
+			}
+		case *ssa.Call:
+			cl := core.CallOf(x)
+			if cl.Builtin() == "append" && reachesBoth(x.Call.Args) {
+				found = "append at " + c.P.Pos(x.Pos())
+				return
+			}
+			if sc := x.Call.StaticCallee(); sc != nil {
+				full := sc.String()
+				if (full == "fmt.Sprintf" || full == "bytes.Join" || full == "strings.Join") && reachesBothDeep(x.Call.Args, isField("Username"), isField("Password")) {
+					found = full + " at " + c.P.Pos(x.Pos())
+					return
+				}
+				// follow module helpers: arguments that carry both fields into a helper that concatenates its parameters
+				if sc.Pkg != nil && c.P.IsModPkg(sc.Pkg.Pkg) && len(sc.Blocks) > 0 {
+					var carriesU, carriesP []int
+					for i, a := range x.Call.Args {
+						if containerReaches(a, isField("Username")) {
+							carriesU = append(carriesU, i)
+						}
+						if containerReaches(a, isField("Password")) {
+							carriesP = append(carriesP, i)
+						}
+					}
+					if len(carriesU) > 0 && len(carriesP) > 0 {
+						for _, b := range sc.Blocks {
+							for _, in := range b.Instrs {
+								var ops []ssa.Value
+								switch y := in.(type) {
+								case *ssa.BinOp:
+									if y.Op == token.ADD {
+										ops = []ssa.Value{y.X, y.Y}
+									}
+								case *ssa.Call:
+									if core.CallOf(y).Builtin() == "append" {
+										ops = y.Call.Args
+									}
+									if jc := y.Call.StaticCallee(); jc != nil {
+										switch jc.String() {
+										case "fmt.Sprintf", "bytes.Join", "strings.Join":
+											ops = y.Call.Args
+										}
+									}
+								}
+								if ops == nil {
+									continue
+								}
+								u, p := false, false
+								reach := func(o ssa.Value, i int) bool {
+									if i >= len(sc.Params) {
+										return false
+									}
+									t := ssa.Value(sc.Params[i])
+									return depReaches(o, func(z ssa.Value) bool {
+										if cz, isCall := z.(*ssa.Call); isCall && cz.Call.StaticCallee() != nil && cz.Call.StaticCallee().Pkg != nil && c.P.IsModPkg(cz.Call.StaticCallee().Pkg.Pkg) {
+											return false
+										}
+										return z == t
+									})
+								}
+								for _, o := range ops {
+									for _, i := range carriesU {
+										if reach(o, i) {
+											u = true
+										}
+									}
+									for _, i := range carriesP {
+										if reach(o, i) {
+											p = true
+										}
+									}
+								}
+								if u && p {
+									found = "concatenation of both credentials in " + c.fname(sc)
+									return
+								}
+							}
+						}
+					}
+				}
+			}
+		}
+		if in, ok := v.(ssa.Instruction); ok {
+			for _, op := range in.Operands(nil) {
+				if *op != nil {
+					walk(*op, fn, d+1)
+				}
+			}
+		}
+		if al, ok := v.(*ssa.Alloc); ok {
+			for _, st := range allStoresTo(al) {
+				walk(st.Val, fn, d+1)
+			}
+		}
+	}
+	walk(v, f, 0)
+	return found
+}
+
+func reachesBothDeep(args []ssa.Value, a, b func(ssa.Value) bool) bool {
+	u, p := false, false
+	for _, x := range args {
+		if depReaches(x, a) {
+			u = true
+		}
+		if depReaches(x, b) {
+			p = true
+		}
+	}
+	return u && p
 }
